@@ -1,4 +1,5 @@
 import Emerge.Lexgen
+import Emerge.Inst.LexerTmpl
 /-
   C08 — the emitted lexer encodes exactly the token automaton.
 
@@ -9,6 +10,10 @@ import Emerge.Lexgen
   That the emitted text is valid Go which type-checks with the standard library only, and that
   the printed character and string literals denote the intended values, is decided per emitted
   package by the Go front end (checks/c08.py) — there is no Go semantics in Lean here.
+  The two table templates the rows are printed through are re-extracted from lexer.go.tmpl on every
+  run and must read as modelled (`C08_template`): one `case <states>:` per group of accepting states
+  returning that terminal with the pending lexeme, one `case <from>:` with one `case <symbols>: return
+  <next>` per symbol group, `errorState` / the ERR token otherwise.
 -/
 namespace Emerge.Props.C08
 open Emerge Emerge.Lexgen
@@ -201,5 +206,11 @@ theorem detB_sound (t : Trans) (h : detB t = true) : Deterministic t := by
   simpa using this
 
 example : Deterministic [(0, 105, 1), (0, 97, 2), (1, 102, 3), (0, 98, 2)] := detB_sound _ (by decide)
+
+/-- The table templates of the emitted lexer read as `evalRows` / `evalSwitch` assume. -/
+theorem C08_template :
+    Gen.LexerTmpl.tmpl_evalDFA = Ref.LexerTmpl.tmpl_evalDFA ∧ Gen.LexerTmpl.tmpl_advanceDFA = Ref.LexerTmpl.tmpl_advanceDFA ∧
+    Gen.LexerTmpl.const_errorState = "-1" :=
+  ⟨Inst.LexerTmpl.tmpl_evalDFA_eq, Inst.LexerTmpl.tmpl_advanceDFA_eq, rfl⟩
 
 end Emerge.Props.C08
